@@ -3,6 +3,7 @@ import Grexv.Lemmas.RepExpand
 import Grexv.Lemmas.Pipeline
 import Grexv.Lemmas.PrintCountG
 import Grexv.Lemmas.RepPipeline
+import Grexv.Lemmas.EndToEndR
 
 /-!
 # C05 — repetition conversion is a notation change (S4 level)
@@ -124,5 +125,23 @@ example : AssOK [[Atom.chr 97]] ∧ Counted 2 3 ∧ AssOK [[Atom.chr 97], [Atom.
     · exact ⟨by simp, Or.inr (by intro a ha; simp at ha; subst ha; exact ⟨by decide, Or.inl (by decide)⟩)⟩
   · intro as has; simp at has; subst has
     exact ⟨by simp, Or.inr (by intro a ha; simp at ha; subst ha; trivial)⟩
+
+/-! ## the language of a whole `-r` pattern -/
+
+/-- **C05 for the model, whole pattern, all inputs** (`-r` with positive thresholds, no class option, case-sensitive, plain printing with both
+anchors, with or without capturing groups and `-e`; test cases of at most 1000 graphemes, one of them non-empty): the returned text is
+accepted by the model of `Regex::new`, and the compiled pattern matches a string of scalar values in full **iff the minimised automaton has
+an accepting path whose labels spell it**, a label `{m,n}` contributing its characters `k` times for some `m ≤ k ≤ n`.  Everything after the
+automaton — state elimination, printing with `x{m,n}` / `(?:unit){m,n}` / nested repetitions, reading by the regex crate, matching — is
+exact; together with `C16.minimize_exact_with_repetitions` (the minimisation is exact on count sequences) what `-r` accepts beyond the test
+cases is exactly what the widened labels of the *trie* stand for: known finding D2 (`["a","aab"]` → `^a{1,2}b?$`) is the widening merge
+of `find_next_state` and nothing else. -/
+theorem repetitions_language_exact (cfg : Config) (hp : RepPrint cfg) (env : Env) (ws : List Str) (st : Stages)
+    (h : regExpFrom cfg env ws = .ok st) (hseg : ∀ w ∈ ws, Grexv.SegOK env w)
+    (hlen : ∀ w ∈ ws, (clusterOfPieces (env.segOf w)).length ≤ 1000) (hne : ∃ t ∈ ws, t ≠ [])
+    (s : Str) (hs : ∀ c ∈ s, Scalar c) :
+    ∃ P, Spec.parse (fmtRegExp cfg st.finalAst) = some (⟨false, false⟩, P) ∧
+      (Spec.fullMatch false P s = true ↔ ∃ ls, st.minimized.LangFrom st.minimized.init ls ∧ Dfa.Spells ls s) :=
+  rep_exact cfg hp env ws st h hseg hlen hne s hs
 
 end Grexv.Props.C05
